@@ -3,8 +3,9 @@
   model : Model/TypeCheck.lean in the tree configuration, with its own iteration counter (the harness
           reports the `verif` hook counter of the real check_type: they must be EQUAL).
   judge : independent of the machine: verdict must be accept/reject (no crash, no panic, no hang marker),
-          the second run must repeat the first, and the step count must not exceed the polynomial bound
-          computed from the spec-side universe:  2 + 4·|objects|·|nodes|·(1 + maxKids + maxWidth).
+          the second run must repeat the first, and the step count must not exceed the PROVED bound
+          `Term.workBound` of Spec/WorkBound.lean (theorem Parsley.C09.machine_work_bound), computed from
+          the case alone: costA * |objects| * |queued forms of spec nodes| + Wc + 5.
   `chain n lin|cyc` : n indirect dictionaries linked by /Next (cyc: the last points back to the first)
           against the recursive named type node = dict{Next : optional node}; the harness runs it in a
           256 KiB-stack thread.  `bigchain` (n = 10^5) is too large for the list-based model memo: the model
@@ -13,6 +14,7 @@
 import Driver.Common
 import Driver.TypeCheckCodec
 import Driver.C08
+import Parsley.Spec.WorkBound
 namespace Driver.C09
 open Parsley Parsley.TC Driver Driver.TCCodec
 
@@ -29,7 +31,7 @@ def chainCase (n : Nat) (cyc : Bool) : Case :=
 def parse (line : String) : Option (Case × Option (Nat × Bool)) :=
   match words line with
   | ["chain", n, k] => some (chainCase n.toNat! (k == "cyc"), none)
-  | ["bigchain", n, k] => some (chainCase 0 false, some (n.toNat!, k == "cyc"))
+  | ["bigchain", n, k] => some (chainCase n.toNat! (k == "cyc"), some (n.toNat!, k == "cyc"))
   | _ => (parseCase line).map fun c => (c, none)
 
 def model (line : String) : String :=
@@ -40,23 +42,8 @@ def model (line : String) : String :=
     let r := checkTypeFuel (C08.cfgOf c.tag) c.g c.ctx 4000000 c.obj c.chk
     s!"{C08.showOutcome r.1} steps={r.2} rerun=same"
 
-partial def objWidth : Obj → Nat
-  | .arr xs | .dict xs | .stream xs _ _ => xs.toList.foldl (fun m kv => max m (objWidth kv.2)) xs.toList.length
-  | _ => 0
-
-def chkWidth (c : Chk) : Nat :=
-  match c with
-  | .het _ es | .dict _ es | .stream _ es | .disj _ es => es.toList.length
-  | .dictStar _ es _ _ => es.toList.length + 1
-  | .array _ _ _ => 1
-  | _ => 0
-
-def bound (c : Case) : Nat :=
-  let os := Spec.allObjs c.g c.obj
-  let cs := Spec.allChks c.ctx c.chk
-  let mk := os.foldl (fun m o => max m (objWidth o)) 0
-  let mw := cs.foldl (fun m d => max m (chkWidth d)) 0
-  2 + 4 * os.length * cs.length * (1 + mk + mw)
+/-- the proved work bound for the case (Spec/WorkBound.lean) -/
+def bound (c : Case) : Nat := Term.workBound (C08.cfgOf c.tag) c.g c.ctx c.obj c.chk
 
 def field (impl : String) (key : String) : Option String :=
   (words impl).findSome? fun w => if w.startsWith key then some ((w.drop key.length).toString) else none
@@ -74,9 +61,7 @@ def judge (line impl : String) : String :=
     match (field impl "steps=").bind String.toNat? with
     | none => "bad no-step-count"
     | some s =>
-      let b := match big with
-        | some (n, _) => 48 * n + 50
-        | none => bound c
+      let b := bound c
       if s ≤ b then "ok" else s!"bad work-bound steps={s} bound={b}"
 
 /-- graphs with back edges: a random graph over ids 1..4 where every object may refer to every id -/
